@@ -211,6 +211,25 @@ func runC36(c *Ctx) {
 			n++
 			r := render(e.Results[0])
 			_, isC := holds(e.Guards, wEQ("type byte 1", -1, t(1, `^\$r\[0\]$`)))
+			if !isC {
+				// the same test through the accessor, provided the accessor is `a[0] == 1`
+				if _, viaAcc := holds(e.Guards, wTrue("IsContract()", `^\$r\.IsContract\(\)$`)); viaAcc {
+					if ic := c.fn(pk, "Address", "IsContract"); ic != nil {
+						okAcc := true
+						for _, ie := range exitAlts(ic) {
+							bo, ok := ie.Results[0].(*ssa.BinOp)
+							k := int64(-1)
+							if ok {
+								k, _ = constInt(bo.Y)
+							}
+							if !(ok && bo.Op == token.EQL && render(bo.X) == "$r[0]" && k == 1) {
+								okAcc = false
+							}
+						}
+						isC = okAcc
+					}
+				}
+			}
 			want := `("hx" + hex.EncodeToString($r[1:]))`
 			if isC {
 				want = `("cx" + hex.EncodeToString($r[1:]))`
